@@ -7,6 +7,12 @@ import sys
 HERE = os.path.dirname(os.path.abspath(__file__))
 sys.path.insert(0, HERE)
 
+# Only properties listed in runner/claimed.txt are claimed (a propdef may exist while its harness is still being built).
+_claimed = None
+_cl = os.path.join(HERE, "claimed.txt")
+if os.path.exists(_cl):
+    _claimed = {l.strip() for l in open(_cl) if l.strip() and not l.startswith("#")}
+
 PROPS = {}
 for path in sorted(glob.glob(os.path.join(HERE, "propdefs", "c[0-9]*.py"))):
     pid = os.path.basename(path)[:-3].upper()
@@ -17,3 +23,7 @@ for path in sorted(glob.glob(os.path.join(HERE, "propdefs", "c[0-9]*.py"))):
 
 # properties not claimed (yet), with the reason shown in MANIFEST.not_applicable
 NOT_CLAIMED = {}
+
+# PROPS holds every propdef present (so a harness under construction can be run with ./check Cxx);
+# CLAIMED is what MANIFEST.json, --setup and --all use.
+CLAIMED = {p: PROPS[p] for p in PROPS if _claimed is None or p in _claimed}
